@@ -535,15 +535,18 @@ pub fn structural(prop: &'static str, cfg: &Config) -> PropRun {
         }
     }
     let sp = filter_spaces(cfg, sp);
-    let mut report = ex.run(&sp, structural_visit(prop), cfg_of);
+    // The list passes come first and the bulk enumeration of the alphabets last: when the
+    // exploration budget of the tier runs out, it is the tail of the largest space that is cut,
+    // never one of the targeted lists.
+    let mut early: Vec<Report> = Vec::new();
     if corpus && cfg.only_spaces.is_empty() {
-        report.absorb(run_corpus(prop, cfg, &ex));
+        early.push(run_corpus(prop, cfg, &ex));
     }
     if prop == "C01" && cfg.only_spaces.is_empty() {
-        report.absorb(run_pumped(cfg, &ex));
+        early.push(run_pumped(cfg, &ex));
     }
     if cfg.only_spaces.is_empty() {
-        report.absorb(run_scale(prop, cfg, &ex));
+        early.push(run_scale(prop, cfg, &ex));
     }
     if matches!(prop, "C07" | "C06" | "C01") && cfg.only_spaces.is_empty() {
         // every pair of characters (all of ASCII incl. controls, three non-ASCII digits/letters)
@@ -551,7 +554,7 @@ pub fn structural(prop: &'static str, cfg: &Config) -> PropRun {
         let mut chars: Vec<char> = (0u8..=0x7f).map(char::from).collect();
         chars.extend(['\u{e9}', '\u{ff11}', '\u{661}']);
         let n = chars.len() as u64;
-        report.absorb(ex.run_list(
+        early.push(ex.run_list(
             "hex-pair sweep (q c1 c2 q x)",
             4 * n * n,
             |i, buf| {
@@ -569,7 +572,7 @@ pub fn structural(prop: &'static str, cfg: &Config) -> PropRun {
     if cfg.only_spaces.is_empty() {
         let ts = spaces::test_string_inputs(&cfg.corpus_dir, cfg.tier, true);
         if !ts.is_empty() {
-            report.absorb(ex.run_list(
+            early.push(ex.run_list(
                 "snippets of the repository's inline tests: alone, inside every nesting prefix, all ordered pairs",
                 ts.len() as u64,
                 |i, buf| buf.push_str(&ts[i as usize]),
@@ -579,7 +582,7 @@ pub fn structural(prop: &'static str, cfg: &Config) -> PropRun {
     }
     if matches!(prop, "C07" | "C06" | "C01") && cfg.only_spaces.is_empty() {
         let bodies = hex_bodies();
-        report.absorb(ex.run_list(
+        early.push(ex.run_list(
             "hex bodies of 3..6 characters over {5 a F g , blank +} x quote kinds x suffix cases",
             bodies.len() as u64,
             |i, buf| buf.push_str(&bodies[i as usize]),
@@ -590,7 +593,7 @@ pub fn structural(prop: &'static str, cfg: &Config) -> PropRun {
         // keywords with one letter replaced by a non-ASCII character that Unicode case mapping
         // (but not ASCII case folding) turns into that letter
         let fa: Vec<String> = spaces::fold_alike_words().into_iter().map(|(h, w)| h.replacen("{}", &w, 1)).collect();
-        report.absorb(ex.run_list(
+        early.push(ex.run_list(
             "fold-alike keyword spellings",
             fa.len() as u64,
             |i, buf| buf.push_str(&fa[i as usize]),
@@ -598,7 +601,11 @@ pub fn structural(prop: &'static str, cfg: &Config) -> PropRun {
         ));
     }
     if matches!(prop, "C01" | "C02" | "C09" | "C10") && cfg.only_spaces.is_empty() {
-        report.absorb(run_program_truncations(prop, cfg, &ex));
+        early.push(run_program_truncations(prop, cfg, &ex));
+    }
+    let mut report = ex.run(&sp, structural_visit(prop), cfg_of);
+    for e in early {
+        report.absorb(e);
     }
     report.distinct_nontrivial = ex.distinct_nontrivial.load(std::sync::atomic::Ordering::Relaxed);
     PropRun { report, rule: rule.to_string(), oracle: format!("oracle of {prop} (DESIGN 5)") }
@@ -1309,39 +1316,8 @@ fn c15_run(cfg: &Config) -> PropRun {
     let b_canon: Vec<Option<Canon>> = b_list.iter().map(|b| lex_canon(b).map(|x| x.1)).collect();
     // In the thorough tier the pair space is bounded by dropping 4-atom A's for the S9 B's:
     let a_canon: Vec<Option<Canon>> = a_list.iter().map(|a| lex_canon(a).map(|x| x.1)).collect();
-    let nb = b_list.len() as u64;
-    let total = a_list.len() as u64 * nb;
-    let pairs = ex.run_list(
-        "C15.pairs(A closed, B)",
-        total,
-        |i, buf| {
-            buf.push_str(&a_list[(i / nb) as usize]);
-            buf.push_str(&b_list[(i % nb) as usize]);
-        },
-        |local, input, i| {
-            let ai = (i / nb) as usize;
-            let bi = (i % nb) as usize;
-            local.lexer_runs += 1;
-            let (Some(ca), Some(cb)) = (&a_canon[ai], &b_canon[bi]) else {
-                local.unobservable += 1;
-                return Visit { cfg: None, nontrivial: false };
-            };
-            match lex_canon(input) {
-                None => {
-                    local.unobservable += 1;
-                    Visit { cfg: None, nontrivial: false }
-                }
-                Some((r, cab)) => {
-                    let exp = compose(&a_list[ai], ca, cb);
-                    if let Some(d) = exp.diff(&cab) {
-                        local.finding(format!("C15 compose.{d}"), &format!("{}\u{1f}{}", a_list[ai], b_list[bi]));
-                    }
-                    Visit { cfg: Some(cfg_hash(&r)), nontrivial: !cb.errs.is_empty() || cb.toks.len() > 2 }
-                }
-            }
-        },
-    );
-    report.absorb(pairs);
+    // (the bulk of the pairs - every closed prefix with every continuation - runs last, after the
+    // smaller targeted pair lists and the corpus split points: a time cap cuts its tail only)
     // 2b. prefixes that are closed in the literal sense of the property only (initial
     // configuration, ends in a statement-level comment, but the last default-channel token is
     // not a ';'), with the continuations whose first token does not look behind
@@ -1479,6 +1455,39 @@ fn c15_run(cfg: &Config) -> PropRun {
         },
     );
     report.absorb(sp);
+    let nb = b_list.len() as u64;
+    let total = a_list.len() as u64 * nb;
+    let pairs = ex.run_list(
+        "C15.pairs(A closed, B)",
+        total,
+        |i, buf| {
+            buf.push_str(&a_list[(i / nb) as usize]);
+            buf.push_str(&b_list[(i % nb) as usize]);
+        },
+        |local, input, i| {
+            let ai = (i / nb) as usize;
+            let bi = (i % nb) as usize;
+            local.lexer_runs += 1;
+            let (Some(ca), Some(cb)) = (&a_canon[ai], &b_canon[bi]) else {
+                local.unobservable += 1;
+                return Visit { cfg: None, nontrivial: false };
+            };
+            match lex_canon(input) {
+                None => {
+                    local.unobservable += 1;
+                    Visit { cfg: None, nontrivial: false }
+                }
+                Some((r, cab)) => {
+                    let exp = compose(&a_list[ai], ca, cb);
+                    if let Some(d) = exp.diff(&cab) {
+                        local.finding(format!("C15 compose.{d}"), &format!("{}\u{1f}{}", a_list[ai], b_list[bi]));
+                    }
+                    Visit { cfg: Some(cfg_hash(&r)), nontrivial: !cb.errs.is_empty() || cb.toks.len() > 2 }
+                }
+            }
+        },
+    );
+    report.absorb(pairs);
     report.distinct_nontrivial = ex.distinct_nontrivial.load(std::sync::atomic::Ordering::Relaxed);
     PropRun {
         report,
@@ -1499,6 +1508,47 @@ pub fn run_property(prop: &'static str, cfg: &Config) -> PropRun {
         "C17" => {
             let ex = Explorer::new(cfg.threads, cfg.cap_s, if cfg.tier == Tier::Quick { 28 } else { 33 });
             let sp = filter_spaces(cfg, spaces::sigma_spaces(&["S1", "S2", "S3", "S4", "S5", "S7", "S8", "S9", "seeded"], cfg.tier));
+            // (the targeted list first: a time cap then cuts the bulk enumeration, not this)
+            let mut early: Option<Report> = None;
+            if cfg.only_spaces.is_empty() {
+                // first characters that share leading bytes with the BOM (EF BB BF), its
+                // neighbours in every UTF-8 length class, and the fold-alike keyword spellings
+                let mut firsts: Vec<String> = Vec::new();
+                for c in [
+                    '\u{fefe}', '\u{ff00}', '\u{fec0}', '\u{feff}', '\u{fffd}', '\u{f000}', '\u{ff41}', '\u{ff05}', '\u{e000}', '\u{efff}', '\u{ffe6}',
+                    '\u{10000}', '\u{ef}', '\u{bb}', '\u{bf}', '\u{7ff}', '\u{800}', '\u{fb01}', '\u{fe00}', '\u{2060}', '\u{200b}', '\u{fffe}',
+                ] {
+                    for tail in ["", "a", ";", " x=1;", "\n", "%let a=1;", "\u{feff}", "'s'", "\"&v\"", "/*c*/", "1"] {
+                        if c != '\u{feff}' {
+                            firsts.push(format!("{c}{tail}"));
+                        }
+                        firsts.push(format!("a{c}{tail}"));
+                        firsts.push(format!("\n{c}{tail}"));
+                    }
+                }
+                firsts.extend(spaces::fold_alike_words().into_iter().map(|(h, w)| h.replacen("{}", &w, 1)));
+                firsts.extend(spaces::test_string_inputs(&cfg.corpus_dir, cfg.tier, true));
+                early = Some(ex.run_list(
+                    "BOM look-alike first characters x tails, fold-alike spellings",
+                    firsts.len() as u64,
+                    |i, buf| buf.push_str(&firsts[i as usize]),
+                    |local, input, _| {
+                        local.lexer_runs += 2;
+                        match c17_check(input) {
+                            None => {
+                                local.unobservable += 1;
+                                Visit { cfg: None, nontrivial: false }
+                            }
+                            Some(sigs) => {
+                                for s in sigs {
+                                    local.finding(format!("C17 {s}"), input);
+                                }
+                                Visit { cfg: None, nontrivial: true }
+                            }
+                        }
+                    },
+                ));
+            }
             let mut report = ex.run(
                 &sp,
                 |local: &mut Local, node: &Node| {
@@ -1521,44 +1571,8 @@ pub fn run_property(prop: &'static str, cfg: &Config) -> PropRun {
                 },
                 cfg_of,
             );
-            if cfg.only_spaces.is_empty() {
-                // first characters that share leading bytes with the BOM (EF BB BF), its
-                // neighbours in every UTF-8 length class, and the fold-alike keyword spellings
-                let mut firsts: Vec<String> = Vec::new();
-                for c in [
-                    '\u{fefe}', '\u{ff00}', '\u{fec0}', '\u{feff}', '\u{fffd}', '\u{f000}', '\u{ff41}', '\u{ff05}', '\u{e000}', '\u{efff}', '\u{ffe6}',
-                    '\u{10000}', '\u{ef}', '\u{bb}', '\u{bf}', '\u{7ff}', '\u{800}', '\u{fb01}', '\u{fe00}', '\u{2060}', '\u{200b}', '\u{fffe}',
-                ] {
-                    for tail in ["", "a", ";", " x=1;", "\n", "%let a=1;", "\u{feff}", "'s'", "\"&v\"", "/*c*/", "1"] {
-                        if c != '\u{feff}' {
-                            firsts.push(format!("{c}{tail}"));
-                        }
-                        firsts.push(format!("a{c}{tail}"));
-                        firsts.push(format!("\n{c}{tail}"));
-                    }
-                }
-                firsts.extend(spaces::fold_alike_words().into_iter().map(|(h, w)| h.replacen("{}", &w, 1)));
-                firsts.extend(spaces::test_string_inputs(&cfg.corpus_dir, cfg.tier, true));
-                report.absorb(ex.run_list(
-                    "BOM look-alike first characters x tails, fold-alike spellings",
-                    firsts.len() as u64,
-                    |i, buf| buf.push_str(&firsts[i as usize]),
-                    |local, input, _| {
-                        local.lexer_runs += 2;
-                        match c17_check(input) {
-                            None => {
-                                local.unobservable += 1;
-                                Visit { cfg: None, nontrivial: false }
-                            }
-                            Some(sigs) => {
-                                for s in sigs {
-                                    local.finding(format!("C17 {s}"), input);
-                                }
-                                Visit { cfg: None, nontrivial: true }
-                            }
-                        }
-                    },
-                ));
+            if let Some(e) = early {
+                report.absorb(e);
             }
             report.distinct_nontrivial = ex.distinct_nontrivial.load(std::sync::atomic::Ordering::Relaxed);
             PropRun {
